@@ -242,4 +242,8 @@ _plans0 = plans
 
 
 def plans():
-    return _plans0() + api_plans()
+    ps = _plans0() + api_plans()
+    # a metamodel with the same names but other attribute types lives in the same process (adapter shadow_prelude)
+    for p in ps:
+        p['opt'] = dict(p.get('opt') or {}, shadow=True)
+    return ps
